@@ -324,7 +324,8 @@ def persist_remove(repo: Repo, rep):
     else:
         rep.violation("R-REMOVE-GATE", ue, ue.node, "unused_externals() is no longer `stored minus everything referenced`: referenced externals can be reported unused", construct="unused-def")
     us = repo.func("_find_external.py::used_externals")
-    loops = [n for n in body_nodes(us.node) if isinstance(n, ast.For)]
+    # a for statement or the (unfiltered) generator of a comprehension: both visit every registered file
+    loops = [n for n in body_nodes(us.node) if isinstance(n, ast.For) or (isinstance(n, ast.comprehension) and not n.ifs)]
     if any(isinstance(l.iter, ast.Attribute) and attr_chain(l.iter) == ["state()", "files_with_snapshots"] for l in loops):
         rep.ok("R-REMOVE-GATE", us, us.node, "used_externals() scans every file of state().files_with_snapshots")
     else:
